@@ -142,6 +142,54 @@ static void incl_body(actor_t *a)
     }
 }
 
+/* scripted: k readers queue up behind a writer; when the writer unlocks, all of
+ * them must get the read lock together (each keeps it until all k are inside).
+ * If only some are woken, the ones inside wait for the rest: logical deadlock. */
+static int g_bw_k, g_bw_announced, g_bw_inside, c_behind_writer;
+static void behind_writer_body(actor_t *a)
+{
+    rctx_t *c = (rctx_t *)a->ctx;
+    if (a->idx == 0) {
+        VRT_ABT(ABT_rwlock_wrlock(c->l));
+        __atomic_store_n(&c->r1_in, 1, __ATOMIC_SEQ_CST);
+        vrt_actor_set(a->vid, VRT_A_RUNNING, "writer holds, readers queue up");
+        while (__atomic_load_n(&g_bw_announced, __ATOMIC_SEQ_CST) < g_bw_k && vrt_num_violations() == 0) {
+            if (a->kind == ACT_ULT)
+                ABT_thread_yield();
+            else
+                vrt_sleep_us(50);
+        }
+        /* give them time to block (a reader that is late simply acquires
+         * later: weaker case, never a false alarm) */
+        for (int i = 0; i < 40; i++) {
+            if (a->kind == ACT_ULT)
+                ABT_thread_yield();
+            vrt_sleep_us(50);
+        }
+        VRT_ABT(ABT_rwlock_unlock(c->l));
+    } else {
+        while (!__atomic_load_n(&c->r1_in, __ATOMIC_SEQ_CST)) {
+            if (a->kind == ACT_ULT)
+                ABT_thread_yield();
+            else
+                vrt_sleep_us(50);
+        }
+        __atomic_fetch_add(&g_bw_announced, 1, __ATOMIC_SEQ_CST);
+        vrt_actor_set(a->vid, VRT_A_BLOCKED, "rdlock behind a writer");
+        VRT_ABT(ABT_rwlock_rdlock(c->l));
+        __atomic_fetch_add(&g_bw_inside, 1, __ATOMIC_SEQ_CST);
+        vrt_actor_set(a->vid, VRT_A_BLOCKED, "holds the read lock, awaits the other readers inside");
+        while (__atomic_load_n(&g_bw_inside, __ATOMIC_SEQ_CST) < g_bw_k && vrt_num_violations() == 0) {
+            if (a->kind == ACT_ULT)
+                ABT_thread_yield();
+            else
+                vrt_sleep_us(50);
+        }
+        vrt_actor_set(a->vid, VRT_A_RUNNING, "leaving");
+        VRT_ABT(ABT_rwlock_unlock(c->l));
+    }
+}
+
 int main(int argc, char **argv)
 {
     vrt_init(argc, argv, "h_rwlock");
@@ -153,6 +201,7 @@ int main(int argc, char **argv)
     c_wr = vrt_counter("write_acquisitions");
     c_task_rejected = vrt_counter("tasklet_lock_rejected");
     c_incl = vrt_counter("scripted_reader_inclusion");
+    c_behind_writer = vrt_counter("scripted_readers_admitted_together_after_writer");
     c_shared_readers = vrt_counter("reads_with_other_readers_inside");
     c_cs_yield = vrt_counter("yields_inside_cs");
     vrt_supervisor_start();
@@ -182,6 +231,26 @@ int main(int argc, char **argv)
                          vrt_hash64(vrt_seed + (uint64_t)round));
             actors_join(actors, 2, &ts);
             vrt_count(c_incl, 1);
+        }
+        /* readers queued behind a writer are all admitted when it unlocks:
+         * externals; then ULTs, each on its own stream */
+        for (int v = 0; v < 2; v++) {
+            int k = 2 + (int)vrt_range(&r, 3);
+            if (v == 1) {
+                if (w.nes < 3 || w.shared || w.sched_predef == ABT_SCHED_RANDWS)
+                    continue;
+                if (k + 1 > w.nes)
+                    k = w.nes - 1;
+            }
+            c.r1_in = 0;
+            g_bw_k = k;
+            g_bw_announced = g_bw_inside = 0;
+            for (int i = 0; i <= k; i++)
+                kinds[i] = v == 0 ? ACT_EXT : ACT_ULT;
+            vrt_actor_reset_all();
+            actors_spawn(&w, actors, k + 1, kinds, behind_writer_body, &c, &ts, vrt_hash64(vrt_seed + 77 + (uint64_t)round));
+            actors_join(actors, k + 1, &ts);
+            vrt_count(c_behind_writer, 1);
         }
         static const int wp[] = { 5, 20, 50, 90 };
         c.write_pct = wp[vrt_range(&r, 4)];
